@@ -1,8 +1,10 @@
 // C07 compile probes: call forms whose availability decides whether the conformance driver
 // may use them.  PROBE=1: closure(rvalue of a move-only type); PROBE=2: assignment between
-// xcomplex instantiations with different closure types.
+// xcomplex instantiations with different closure types; PROBE=3: copy construction of an
+// xmasked_value over reference closures from a non-const lvalue.
 #include <xtl/xclosure.hpp>
 #include <xtl/xcomplex.hpp>
+#include <xtl/xmasked_value.hpp>
 struct MO
 {
     int v;
@@ -28,5 +30,17 @@ int main()
     xtl::xcomplex<double, double> e;
     e = c;
     return (re == 3 && im == 4 && e.real() == 3) ? 0 : 1;
+}
+#elif PROBE == 3
+int main()
+{
+    int x = 1; bool f = false;
+    xtl::xmasked_value<int&, bool&> r(x, f);
+    xtl::xmasked_value<int&, bool&> r2(r);              // copy from a non-const lvalue
+    const xtl::xmasked_value<int&, bool&>& cr = r;
+    xtl::xmasked_value<int&, bool&> r3(cr);             // copy from a const lvalue
+    xtl::xmasked_value<int, bool> a(5, false);
+    xtl::xmasked_value<int, bool> b(a);
+    return (&r2.value() == &x && &r2.visible() == &f && &r3.value() == &x && !b.visible()) ? 0 : 1;
 }
 #endif
